@@ -209,16 +209,32 @@ type Local struct {
 	nontriv  map[uint64]struct{}
 	outcomes map[string]int64
 	States, Transitions, Traces int64
+	// Mute: counters are not advanced (an execution that every shard has to repeat — the root of an exploration that
+	// is split over the shards — is counted by shard 0 only). Violations are always recorded.
+	Mute bool
 }
 
 func (r *Rec) Local() *Local {
 	return &Local{r: r, nontriv: map[uint64]struct{}{}, outcomes: map[string]int64{}}
 }
-func (l *Local) Eval()                 { l.Evals++ }
+func (l *Local) Eval() {
+	if !l.Mute {
+		l.Evals++
+	}
+}
 func (l *Local) Nontrivial(key string) { l.nontriv[H(key)] = struct{}{} }
 func (l *Local) NontrivialH(h uint64)  { l.nontriv[h] = struct{}{} }
-func (l *Local) Outcome(o string)      { l.outcomes[o]++ }
-func (l *Local) Sample(s any)          { l.r.Sample(s) }
+func (l *Local) Outcome(o string) {
+	if !l.Mute {
+		l.outcomes[o]++
+	}
+}
+func (l *Local) Trace() {
+	if !l.Mute {
+		l.Traces++
+	}
+}
+func (l *Local) Sample(s any) { l.r.Sample(s) }
 func (l *Local) Violation(sig, msg string, detail any) { l.r.Violation(sig, msg, detail) }
 func (l *Local) Merge() {
 	l.r.mu.Lock()
